@@ -250,7 +250,9 @@ theorem fifo_step (q : Quirks) (s : State) (e : Event) (k : Key) :
     simp only [step]
     split
     · exact (FifoStep.of_eq (lineOf_setConn ..)).trans (fifo_runBatch q now c k _ _)
-    · exact .refl _
+    · split
+      · exact (FifoStep.of_eq (lineOf_setConn ..)).trans (fifo_runBatch q now c k _ _)
+      · exact .refl _
   | timeouts now => exact fifo_iter (fifo_expireOne now · k) _ _
   | hangup c =>
     simp only [step]; split
